@@ -129,6 +129,9 @@ def scenarios(tier):
                 if debts and colls:
                     for first, tok1, then, tok2 in (("withdraw", colls[0], "borrow", debts[0]), ("borrow", debts[0], "withdraw", colls[0]), ("repay", debts[0], "borrow", debts[0]), ("supply", colls[0], "withdraw", colls[0]), ("change_collateral", colls[0], "borrow", debts[0])):
                         out.append(Scenario(f"{sn}/{warm}/{first}:{tok1}+{then}:{tok2}", write_then_read, params=dict(shape=shape, write=first, tok=tok1, tok2=None, warm=warm, then=then, tok_then=tok2), shadows=SHADOWS, entry=("AaveV3Market derived views", f"AaveV3Market.{first}", f"AaveV3Market.{then}"), max_paths=1200, witness_cap=6, round_mode="uf"))
+            if warm == "all" and sn == "A":
+                for op, tok in (("borrow", "DAI"), ("withdraw", "WETH")):
+                    out.append(Scenario(f"{sn}/{warm}/{op}/{tok}/another_aave_market_in_the_process", write_then_read, params=dict(shape=shape, write=op, tok=tok, tok2=None, warm=warm, neighbour_market=True), shadows=SHADOWS, entry=("AaveV3Market derived views", f"AaveV3Market.{op}"), max_paths=800, witness_cap=6, round_mode="uf"))
             for wr in ("new_bar", "update"):
                 if tier == "quick" and wr == "update" and (sn not in ("A", "C", "E") or warm != "all"):
                     continue  # multi-debt liquidation loops are explored in the thorough tier (and by C12)
